@@ -14,9 +14,10 @@ import Bluebell.Props.C13
   round-trip theorem is planned, not done).
 * `C17_to_dict_is_a_function` — `toDict` has no state: two calls on the same tree agree (in Python
   this is "repeatable and free of side effects", which the oracle checks on the real objects).
-* `C17_counterexample_undocumented_type` — F16: a debate's speech containers have the type
-  `speechhier` (and speech groups the key `from`, attachments the key `att_attribs`), none of which the
-  README documents.
+* `C17_types_and_keys_documented`, `C17_speech_type_documented` — every node type and key the model uses is
+  listed in the README's section "Intermediate output structure" (regenerated from README.md on every run).
+  On the pinned tree this failed for `speechhier`, `from` and `att_attribs` (finding F16, repaired by the
+  documentation fix 3188187).
 -/
 namespace Bluebell
 
@@ -44,13 +45,24 @@ theorem C17_two_entry_points_agree (u : Uris) (pfx text root : String) (st : Gen
   rw [hp]
   simp [hk]
 
-/-- F16: the dict of a debate uses the undocumented type `speechhier`. -/
-theorem C17_counterexample_undocumented_type :
-    (match parseText "DEBATESECTION\n  SPEECH\n    FROM x\n    text\n" "debate" with
+/-- the node types and keys the model of `to_dict` uses (the constructors' type strings and the keys of the JSON
+rendering that the `todict` tie compares with the real `json.dumps`) -/
+def modelTypes : List String := ["element", "hier", "block", "content", "inline", "text", "marker", hierTypeName, speechTypeName]
+def modelKeys : List String :=
+  ["type", "name", "attribs", "children", "value", "num", "heading", "subheading", "from", "att_attribs"]
+
+/-- F16 (repaired in 3188187: the README now documents `speechhier`, `from`, `att_attribs`): every type and key is
+among those the README's section "Intermediate output structure" lists (regenerated from README.md on every run). -/
+theorem C17_types_and_keys_documented :
+    modelTypes.all (readmeTypes.contains ·) = true ∧ modelKeys.all (readmeKeys.contains ·) = true := by decide +kernel
+
+/-- the speech containers of a debate have the type `speechhier`, which is documented -/
+theorem C17_speech_type_documented :
+    readmeTypes.contains (match parseText "DEBATESECTION\n  SPEECH\n    FROM x\n    text\n" "debate" with
      | .ok (pre, t) =>
        (match toDict pre (defaultFuel pre) t with
         | .node _ _ _ (some [.node _ _ _ (some [.node ty _ _ _ _ _ _ _ _]) _ _ _ _ _]) _ _ _ _ _ => ty
         | _ => "?")
-     | .error _ => "?") = "speechhier" := by decide +kernel
+     | .error _ => "?") = true := by decide +kernel
 
 end Bluebell
